@@ -1,4 +1,5 @@
 import RQ.Model.Push
+import RQ.Lemmas.InodesFS
 /-! Helper lemmas for C18: an injected fault is never swallowed by the driver. -/
 namespace RQ.Push
 open RQ RQ.Parse RQ.Write
@@ -91,6 +92,20 @@ theorem writeNew_ny {k : Key} (perms : Option Nat) (content : Bytes) (h : NY w) 
       · cases heq
       · cases heq
 
+/-- an operation that was logged without being the one to fail -/
+theorem ny_logged {w : World} (o : Op) (h : NY w) (hf : ¬ (w.faultAt == some w.trace.length) = true) :
+    NY (w.logged o) := by
+  intro k hk
+  have h1 := h k hk
+  simp only [World.logged_trace, List.length_append, List.length_singleton]
+  have : k ≠ w.trace.length := by
+    intro hkk
+    apply hf
+    simp only [World.logged_faultAt] at hk
+    rw [hk, hkk]
+    exact beq_self_eq_true _
+  omega
+
 theorem saveRejFiles_ny (rejs : List (Bytes × Bytes)) :
     ∀ {w : World}, NY w → WRNY id (saveRejFiles w rejs) := by
   induction rejs with
@@ -99,10 +114,22 @@ theorem saveRejFiles_ny (rejs : List (Bytes × Bytes)) :
     intro w h
     obtain ⟨name, content⟩ := x
     generalize hr : saveRejFiles w ((name, content) :: rest) = r
-    unfold saveRejFiles at hr
+    rw [saveRejFiles_cons] at hr
     split at hr
     · subst hr; exact .inr rfl
     · rename_i k _
+      split at hr
+      · -- the path leads through a regular file: both operations are issued, the reject is bypassed
+        split at hr
+        · subst hr; exact .inr rfl
+        · rename_i hf
+          have h1 := ny_logged (.removeFile k) h hf
+          split at hr
+          · subst hr; exact .inr rfl
+          · rename_i hf2
+            subst hr
+            refine ih (ny_logged (.createFile k) h1 ?_)
+            simpa using hf2
       split at hr
       · subst hr; exact .inr rfl
       all_goals
